@@ -190,6 +190,7 @@ def impl_factor(cuqi, dim, kind, val):
         with quiet(), np.errstate(all="ignore"):
             g = Gaussian(np.zeros(dim), **{kind: (val.copy() if hasattr(val, "copy") else val)})
             L = dense(g.sqrtprec)
+            impl_factor.last_sparse = hasattr(g.sqrtprec, "todense")
         return "ok", np.array(L, dtype=float)
     except Exception as ex:
         return "err:" + type(ex).__name__, str(ex)[:100]
@@ -229,17 +230,17 @@ def run_factor(ctx, cuqi, r, thorough):
                         Dm = val if kind in ("cov", "prec") else val.T @ val
                         doc = np.linalg.inv(Dm) if kind in ("cov", "sqrtcov") else Dm
                     cases.append({"valid": True, "dim": dim, "kind": kind, "val": getattr(spa, fmt + "_matrix")(val), "tok": "m:" + qm(val),
-                                  "tag": f"{kind}-{form}-sparse-{fmt}", "doc": doc})
+                                  "tag": f"{kind}-{form}-sparse-{fmt}", "doc": doc, "fmt": fmt})
     for t in range(n_invalid):
         dim = int(r.randint(2, 6))
         dim, kind, val, tok, tag = gen_invalid(r, dim)
         cases.append({"valid": False, "dim": dim, "kind": kind, "val": val, "tok": tok, "tag": tag, "doc": None})
-    lines = [f"factor {c['dim']} {c['kind']} {c['tok']}" for c in cases]
+    lines = [(f"factors {c['dim']} {c['kind']} {c['fmt']} {c['tok']}" if c.get("fmt") else f"factor {c['dim']} {c['kind']} {c['tok']}") for c in cases]
     combos = [(a, b, c_, d) for a in (0, 1) for b in (0, 1) for c_ in (0, 1) for d in (0, 1)]
     lines += [f"kinds {a} {b} {c_} {d}" for a, b, c_, d in combos]
     outs = ctx.lean.drive(lines)
 
-    hist = {"branch": {}, "outcome": {}, "tag": {}, "soft_mismatch": {}}
+    hist = {"branch": {}, "outcome": {}, "tag": {}, "soft_mismatch": {}, "storage_path": {}}
     def bump(h, k):
         hist[h][k] = hist[h].get(k, 0) + 1
     for c, o in zip(cases, outs):
@@ -249,6 +250,14 @@ def run_factor(ctx, cuqi, r, thorough):
         ctx.case("factor-valid" if c["valid"] else "factor-invalid", desc)
         st, L = impl_factor(cuqi, dim, kind, val)
         toks = o.split(" ")
+        if c.get("fmt"):
+            # storage-dispatch table of the model: code path and whether the stored factor is sparse (soft: storage is not demanded)
+            path, rs = toks[0], toks[1] == "1"
+            toks = toks[2:]; o = " ".join(toks)
+            bump("storage_path", f"{kind}:{c['fmt']}:{'diag' if '-diag-' in tag else 'band'}->{path}")
+            if st == "ok" and bool(getattr(impl_factor, "last_sparse", False)) != rs:
+                bump("soft_mismatch", "storage:" + tag)
+                ctx.note(f"{key}: model path {path} predicts a {'sparse' if rs else 'dense'} stored factor, implementation stores the other (storage only)")
         bump("tag", tag); bump("outcome", toks[0])
         if toks[0] in ("ok", "irrational"):
             bump("branch", toks[1])
